@@ -7,7 +7,7 @@ usage: seedreport.py [--run] [ids...]
 import glob, hashlib, json, os, shutil, subprocess, sys, tempfile, concurrent.futures
 
 SEEDED = "/verif/seeded"
-EXTRA = {"C07-A": ["C08"], "C04-C": ["C08"], "C07-C": ["C08"], "C07-F": ["C08"], "C07-E": ["C08"], "C07-G": ["C08"], "C07-I": ["C04"], "C07-L": ["C08"], "C01-N": ["C05"], "C07-P": ["C08"], "C09-O": ["C04"], "C09-M": ["C10"], "C07-Q": ["C04"], "C07-R": ["C08"], "C09-Q": ["C04"], "C09-R": ["C01"], "C04-R": ["C08"], "C06-Q": ["C11", "C03"], "C06-R": ["C04"], "C13-R": ["C10"]}   # changes that live in the Numba kernels are C08's subject as well
+EXTRA = {"C04-T": ["C07"], "C07-A": ["C08"], "C04-C": ["C08"], "C07-C": ["C08"], "C07-F": ["C08"], "C07-E": ["C08"], "C07-G": ["C08"], "C07-I": ["C04"], "C07-L": ["C08"], "C01-N": ["C05"], "C07-P": ["C08"], "C09-O": ["C04"], "C09-M": ["C10"], "C07-Q": ["C04"], "C07-R": ["C08"], "C09-Q": ["C04"], "C09-R": ["C01"], "C04-R": ["C08"], "C06-Q": ["C11", "C03"], "C06-R": ["C04"], "C13-R": ["C10"]}   # changes that live in the Numba kernels are C08's subject as well
 
 def checks_stamp(props):
     """Hash of the sources that decide these properties (shared monitor modules + the properties' own modules) in the tree the checks run from."""
